@@ -3,7 +3,7 @@ import ast
 import re
 
 from .absint import Domain, Interp, NORMAL, RETURN, RAISE, is_raise
-from .astutil import method_call, unparse, parent, in_subtree, is_self_call, keytext
+from .astutil import method_call, unparse, parent, in_subtree, is_self_call, keytext, oriented
 from .index import dotted, walk_local
 from .linear import linform, same, show
 from .loader import AnalysisError
@@ -351,8 +351,9 @@ class GramDomain(Domain):
         while isinstance(t, ast.UnaryOp) and isinstance(t.op, ast.Not):
             t, neg = t.operand, not neg
         val = truth != neg
-        if isinstance(t, ast.Compare) and len(t.ops) == 1 and dotted(t.left) == self.d and getattr(t.comparators[0], "value", 0) is None:
-            isnone = val == isinstance(t.ops[0], (ast.Is, ast.Eq))
+        o = oriented(t, lambda e: dotted(e) == self.d)
+        if o and getattr(o[2], "value", 0) is None:
+            isnone = val == (o[1] in ("Is", "Eq"))
             if dn is not None and dn != isnone:
                 return None
             return (owned, saved, dropped, isnone)
